@@ -177,12 +177,29 @@ def r2_consumer(chk):
     r = chk.rule("R2", "consumer protocol of ReadyPipeQueue", "T3 guarded-by + T9 constants",
                  "at every queued_count.fetch_sub: an item was dequeued first, the pipe is re-armed iff the previous count was > 1, the reservation is released on the same path")
     for cfg, prog in chk.configs():
+        # a helper that only performs the decrement(s) and returns the previous count is treated as the decrement itself
+        # at its call sites (one level of summarisation: "a wrapper is A when all its paths perform A")
+        wrappers = {}
+        for wb in prog.bodies.values():
+            if "ready_pipe_queue" not in wb.path or "::tests" in wb.path or "_tests::" in wb.path or wb.kind not in ("fn", "assoc_fn"):
+                continue
+            subs = [x for x in wb.calls if x.matches(r"atomic::Atomic::fetch_sub$") and (x.recv() or "").endswith(".queued_count")]
+            if len(subs) != 1 or any(x.matches(r"try_recv|AsyncSender::(send|try_send)$") for x in wb.calls):
+                continue
+            sub = subs[0]
+            ret = wb.data_slice({"c": "copy", "p": {"l": 0, "pr": [], "s": "", "ty": ""}})
+            if any(x[0] == "call" and x[1].endswith("fetch_sub") for x in ret) and all(wb.dominates(sub.blk, rb) for rb in wb.returns()):
+                wrappers[__import__("vlib.mir", fromlist=["strip_generics"]).strip_generics(wb.path)] = (wb, sub)
         for body in prog.bodies.values():
             if "ready_pipe_queue" not in body.path or "::tests" in body.path or "_tests::" in body.path:
                 continue
+            if __import__("vlib.mir", fromlist=["strip_generics"]).strip_generics(body.path) in wrappers:
+                continue
             for c in body.calls:
-                if not (c.matches(r"atomic::Atomic::fetch_sub$") and (c.recv() or "").endswith(".queued_count")):
+                direct_site = c.matches(r"atomic::Atomic::fetch_sub$") and (c.recv() or "").endswith(".queued_count")
+                if not direct_site and c.callee not in wrappers:
                     continue
+                sub_body, sub = (body, c) if direct_site else wrappers[c.callee]
                 base = "%s|queued_count.fetch_sub" % short(body.path)
                 ok_edges = _discr_edges(body, r"BoundedAsyncReceiver::try_recv\(", "std::result::Result<", 0)
                 reach = body.reachable([0], avoid_edges=ok_edges)
@@ -190,12 +207,12 @@ def r2_consumer(chk):
                     r.bad(cfg, base + "|after dequeue", where(body, c.blk), "queued_count decremented without a successful rx.try_recv(): phantom decrement")
                 else:
                     r.ok(cfg, base + "|after dequeue", where(body, c.blk))
-                if body.const_int(c.args[1]) == 1:
+                if sub_body.const_int(sub.args[1]) == 1:
                     r.ok(cfg, base + "|subtracts 1", where(body, c.blk))
                 else:
                     r.bad(cfg, base + "|subtracts 1", where(body, c.blk), "decrement is not the constant 1")
                 # reservation released on the same path
-                rel = [x for x in body.calls if x.matches(r"atomic::Atomic::fetch_sub$") and (x.recv() or "").endswith(".reserved_count") and (body.dominates(c.blk, x.blk) or body.dominates(x.blk, c.blk))]
+                rel = [x for x in sub_body.calls if x.matches(r"atomic::Atomic::fetch_sub$") and (x.recv() or "").endswith(".reserved_count") and (sub_body.dominates(sub.blk, x.blk) or sub_body.dominates(x.blk, sub.blk))] if sub_body is not body else [x for x in body.calls if x.matches(r"atomic::Atomic::fetch_sub$") and (x.recv() or "").endswith(".reserved_count") and (body.dominates(c.blk, x.blk) or body.dominates(x.blk, c.blk))]
                 if rel:
                     r.ok(cfg, base + "|releases reservation", where(body, c.blk))
                 else:
